@@ -20,7 +20,9 @@ def _counters(lines, verdicts):
          "cases_ignore_write_error": 0, "cases_nonrows_reply": 0, "cases_plan_exhausted": 0,
          "drop_cases": 0, "connection_pager_cases": 0, "max_rows": 0, "requests_seen": 0,
          "unprepared_on_later_page": 0, "slow_consumer_error_on_page_ge2_seen_by_caller": 0,
-         "timeout_cases": 0, "early_timeout_accepted": 0, "not_run": 0}
+         "timeout_cases": 0, "early_timeout_accepted": 0, "not_run": 0,
+         "single_page_cases": 0, "single_page_with_caller_state_and_retry": 0,
+         "coordinator_checked_multi_node_multi_page": 0}
     for ln, v in zip(lines, verdicts):
         parts = ln.split("|")
         case = parts[0].split()
@@ -53,6 +55,15 @@ def _counters(lines, verdicts):
             c["connection_pager_cases"] += 1
         if case[0] == "T":
             c["timeout_cases"] += 1
+        if case[0] == "P":
+            c["single_page_cases"] += 1
+            if case[3] != "stN" and len(parts) > 1 and parts[1].split()[-1].count(",") >= 1:
+                c["single_page_with_caller_state_and_retry"] += 1
+        if case[1] == "s" and case[0] != "P" and nodes >= 2 and len(parts) > 1:
+            ks = parts[1].split()[-1]
+            kl = [] if ks == "none" else [k.split(":") for k in ks.split(",")]
+            if kl and all(len(k) == 3 for k in kl) and any(k[0] != "0" for k in kl):
+                c["coordinator_checked_multi_node_multi_page"] += 1
         if v and v.startswith("ok early-timeout"):
             c["early_timeout_accepted"] += 1
         if any("U" in f.split(",") for f in faults[1:]):
@@ -82,7 +93,8 @@ _FLOORS = {"drop_cases": 40, "connection_pager_cases": 40, "cases_with_nonretrie
            "cases_ctor_error": 10, "cases_with_empty_page": 150, "cases_ignore_write_error": 2,
            "cases_nonrows_reply": 5, "cases_plan_exhausted": 3, "unprepared_on_later_page": 12,
            "slow_consumer_error_on_page_ge2_seen_by_caller": 10, "timeout_cases": 4,
-           "cases_connection_reset": 2, "requests_seen": 1500}
+           "cases_connection_reset": 2, "requests_seen": 1500, "single_page_cases": 25,
+           "single_page_with_caller_state_and_retry": 5, "coordinator_checked_multi_node_multi_page": 100}
 
 
 def _post(lines, verdicts):
@@ -91,8 +103,11 @@ def _post(lines, verdicts):
         return out
     c = _counters(lines, verdicts)
     scale = max(1, len(lines) // 1500)
+    # families of fixed size do not grow with the random part of a thorough run
+    fixed_big = {"timeout_cases": 10, "single_page_cases": 150, "single_page_with_caller_state_and_retry": 30,
+                 "slow_consumer_error_on_page_ge2_seen_by_caller": 60}
     for k, floor in _FLOORS.items():
-        need = floor * (scale if k not in ("timeout_cases",) else 1)
+        need = floor * scale if k not in fixed_big else (floor if scale == 1 else fixed_big[k])
         if c[k] < need:
             out.append(("diff", f"coverage-floor {k}", f"diff coverage floor not met: {k}={c[k]} < {need}"))
     # cases that did not run (environment trouble) are tolerated up to a small cap
@@ -110,7 +125,7 @@ SPEC = {
     "coq_targets": ["Props/C07.vo", "Extract/ExC07.vo"],
     "bin": "c07",
     "sizes": {"quick": 400, "thorough": 20000},
-    "min_cases": {"quick": 460, "thorough": 19000},
+    "min_cases": {"quick": 490, "thorough": 19500},
     "post": _post,
     "search_n": 4000,
     "runner_timeout": 2400,
@@ -124,7 +139,9 @@ SPEC = {
              "reset, client-side timeout, plan exhaustion, Void / non-RESULT replies), 1..4 nodes; consumer = full read (F), "
              "slow (S; incl. 16/80 cases 'slow consumer x error on a page >= 2'), every Pending poll cancelled (J), early drop "
              "after n items (D); 16/80 cases with the prepared statement evicted on a later page (U: UNPREPARED, transparent "
-             "re-prepare, re-sent EXECUTE); timeout cases (T). "
+             "re-prepare, re-sent EXECUTE); 30/200 single-page cases (P: query_single_page / execute_single_page resumed with a "
+             "caller-supplied paging state); timeout cases (T). The mock node of every request is compared with coordinator "
+             "stability (coord_ok). "
              "non-trivial = at least two pages or one fault; distinct = distinct case lines"),
     "nontrivial": _nontrivial,
     "extra_coverage": _extra,
